@@ -129,8 +129,25 @@ def submitted_futures_are_tracked_and_tagged(ctx):
     adc = ef.methods['add_done_callback']
     cs = [c for c in own_calls(adc.node) if (dotted(c.func) or '') == 'self._future.add_done_callback']
     ctx.ob(adc, 'ExecutorFuture.add_done_callback registers on the pool future', len(cs) == 1 and not q.guards(cs[0]), 'permit release / association removal hang on this callback')
-    inner_fn = [n for n in ast.walk(adc.node) if isinstance(n, ast.FunctionDef) and n is not adc.node]
-    ok = len(inner_fn) == 1 and any(isinstance(c, ast.Call) and isinstance(c.func, ast.Name) and c.func.id == adc.params[1] for c in ast.walk(inner_fn[0]))
+    # what is registered: a wrapper (nested def here, or built by a package factory around fn) that calls fn()
+    def _wrapper_calls(fn_node, pname):
+        return any(isinstance(c, ast.Call) and isinstance(c.func, ast.Name) and c.func.id == pname for c in ast.walk(fn_node))
+    ok = False
+    if len(cs) == 1 and cs[0].args:
+        w = q.resolve_local(adc, cs[0].args[0])
+        inner_fn = {n.name: n for n in ast.walk(adc.node) if isinstance(n, ast.FunctionDef) and n is not adc.node}
+        if isinstance(w, ast.Name) and w.id in inner_fn:
+            ok = _wrapper_calls(inner_fn[w.id], adc.params[1])
+        elif isinstance(w, ast.Call):
+            r = ctx.r.resolve(w, adc, _count=False)
+            if r.kind == 'package' and len(r.targets) == 1:
+                t = r.targets[0]
+                b = q.bind_args(ctx, w, adc, t) or {}
+                pn = [k for k, v in b.items() if isinstance(v, ast.Name) and v.id == adc.params[1]]
+                nested = [n for n in ast.walk(t.node) if isinstance(n, (ast.FunctionDef, ast.Lambda)) and n is not t.node]
+                rets = [x.value for x in own_nodes(t.node) if isinstance(x, ast.Return) and x.value is not None]
+                ok = bool(pn) and len(nested) == 1 and _wrapper_calls(nested[0], pn[0]) and len(rets) == 1 and \
+                    ((isinstance(rets[0], ast.Name) and isinstance(nested[0], ast.FunctionDef) and rets[0].id == nested[0].name) or rets[0] is nested[0])
     ctx.ob(adc, 'the registered wrapper calls fn()', ok, 'the callback itself must run')
 
 
